@@ -137,15 +137,16 @@ def check_follow_kind_change(chk, prog, sim, up, get):
     names = sim.adt_fields(obj.ty)
     fs = list(obj.fields)
     done = False
+    import sdkit
+    kit = sdkit.kit(sim, prog)
+    ffn = sdkit.trait_default(prog, "Settable", "follow")
+    gty = subst(ffn["sig_inputs"][1], sim.identity_gargs(ffn))
     for i, (n, t) in enumerate(names):
         if is_adt(t, "SettableData"):
-            sd = sim.expand(st0, fs[i])
-            sdf = list(sd.fields)
-            for j, (fn_, ft) in enumerate(sim.adt_fields(t)):
-                if fn_ == "following":
-                    sdf[j] = sim.mk_enum(ft, "Some", [Sym("followed", ft["args"][0])])
-                    done = True
-            fs[i] = Struct(t, sdf)
+            # the constructor's SettableData, now following a symbolic getter (built by the crate's own follow())
+            f0, r0 = kit.read(st0, fs[i])
+            fs[i] = kit.make(t, following=Sym("followed", gty), request=None if r0 in (None, "?") else r0)
+            done = True
     if not done:
         raise AnchorMissing("CommandPID settable data / following")
     st0.mem[oid] = Struct(obj.ty, fs)
@@ -208,6 +209,7 @@ def check_impl_set(chk, prog, sim):
     ok = True
     cmd_adt = prog.adt_by_name("Command")
     cty = {"k": "adt", "did": cmd_adt["did"], "name": "Command", "args": []}
+    fresh_v = None
     for kcur in KINDS:
         for knew in KINDS:
             st = S.State()
@@ -230,18 +232,29 @@ def check_impl_set(chk, prog, sim):
                 pre = sim.final_value(leaf.state, sv)
                 same_val = [p for p in leaf.pc if p[0] == "frel"]
                 equal = (kcur == knew) and same_val and same_val[0][2] == "="
-                us_i = [i for i, (n, t) in enumerate(sim.adt_fields(sty)) if is_adt(t, "Result")][0]
                 if equal:
                     if post != pre:
                         chk.violation("C11.set", key + ":equal-changes", "setting a command equal to the current one changes the controller state: %r -> %r" % (pre, post), fn=fn["pretty"], file=loc(fn["span"]))
                         ok = False
                 else:
-                    us = post.fields[us_i]
-                    reset = isinstance(us, Enum) and us.vname == "Ok" and isinstance(us.fields[0], Enum) and us.fields[0].vname == "None"
+                    # restarted = every field that the constructor does not take from its arguments has its constructor value
+                    # again (whatever the representation of the progress state is)
+                    if fresh_v is None:
+                        _st, _oid, fresh_v = fresh(sim, prog, "Position")
+                        argn = [x["name"] for x in [f for f in prog.find_fns(name="new", self_name=NAME) if not f.get("impl_trait")][0]["body"]["names"]]
+                    stale = []
+                    for i, (n, t) in enumerate(sim.adt_fields(sty)):
+                        if i == ci or is_adt(t, "SettableData"):
+                            continue
+                        ff = fresh_v.fields[i]
+                        if any(a in repr(ff) for a in argn):
+                            continue       # a constructor argument (input, gains)
+                        if post.fields[i] != ff:
+                            stale.append((n, post.fields[i], ff))
                     stored = post.fields[ci] == newc
-                    if not (reset and stored):
+                    if stale or not stored:
                         chk.violation("C11.set", "%s:different:%s->%s" % (key, kcur, knew), "setting a different command (%s(cur) -> %s(new), value relation %s) must restart the computation and store the command; "
-                                      "update_state=%r command=%r" % (kcur, knew, [p[2] for p in same_val], us, post.fields[ci]), fn=fn["pretty"], file=loc(fn["span"]))
+                                      "fields not at their constructor value: %r; command=%r" % (kcur, knew, [p[2] for p in same_val], stale[:2], post.fields[ci]), fn=fn["pretty"], file=loc(fn["span"]))
                         ok = False
     if ok:
         chk.discharge(key)
